@@ -5,7 +5,8 @@
     10  HAVING mentions a GROUP BY key that is not a plain column   (it reads as NULL)
      9  an aggregate over an expression is looked up BY NAME (HAVING, or a select list that also
         selects an expression key): the name is the bare function name, shared by every such
-        aggregate of that function and by COUNT( * )
+        aggregate of that function and by COUNT( * ) -- so COUNT( * ) looked up by name next to a COUNT
+        over an expression is in the class as well
      8  an aggregate over a join (Corr/C16.v; Model/AggJoin.v)
    Repaired in /repo (the former classes 1 .. 7): COUNT(col) counted NULLs; SUM
    over no non-NULL value was 0; integer SUM / AVG overflow panicked; MIN / MAX over TEXT were NULL; an
@@ -62,10 +63,16 @@ Definition sel_expr_key (q : aquery) : bool :=
   existsb (fun i => match nth_error (q_keys q) i with Some k => negb (is_plain k) | None => false end) (q_sel q).
 Definition cls_key_expr (q : aquery) : bool :=
   existsb (fun i => match nth_error (q_keys q) i with Some k => negb (is_plain k) | None => false end) (having_cols q).
+(* a COUNT over an expression is computed: it carries the bare name `count`, like COUNT( * ) *)
+Definition count_expr (q : aquery) : bool :=
+  existsb (fun a => match a_fn a with FCount => negb (is_plain (a_arg a)) | _ => false end) (q_aggs q).
 Definition cls_arg_expr (q : aquery) : bool :=
   let nk := length (q_keys q) in
   let bad := fun i => negb (Nat.ltb i nk) &&
-                      match nth_error (q_aggs q) (i - nk) with Some a => nonplain_agg a | None => false end in
+                      match nth_error (q_aggs q) (i - nk) with
+                      | Some a => nonplain_agg a || match a_fn a with FCountStar => count_expr q | _ => false end
+                      | None => false
+                      end in
   existsb bad (having_cols q) || (sel_expr_key q && existsb bad (q_sel q)).
 
 Definition q_class (q : aquery) (t : table) : Z :=
